@@ -25,6 +25,8 @@ EXTENSION = [
     # alternative operator spellings as operands of the logical operators, unparenthesised
     "$[?@.b && @.a <> 1]", "$[?@.a <> 1 && @.b]", "$[?@.a <> @.b || @.s]", "$[?@.s and @.a <> 2 or @.b <> 2]", "$[?@.a in [1, 2] && @.b]", "$[?@.b && @.s contains 'b']", "$[?@.b || @.s =~ /a.*/]",
     "$[?!@.b && @.a <> 1]", "$[?@.a <> 1 == true]",
+    # a flag letter given twice
+    "$[?@.s =~ /a.b/ss]", "$[?@.s =~ /A.*/ii]", "$[?@.s =~ /a.b/sis]", "$[?@.s =~ /^b/mm]", "$[?@.s =~ /A.B/isi]",
 ]
 COMPOUND = [
     "$.a | $.b", "$.a[*] | $.b[*]", "$.a[*] & $.b[*]", "$.a[*] & $.b[*] & $.c[*]", "$.a[*] | $.b[*] & $.c[*]", "$.a[*] & $.b[*] | $.c[*]",
